@@ -2,6 +2,9 @@
 import os
 import sys
 
+# no native thread pools (see ./check): must be set before numpy / scipy are imported
+for _v in ("DUCC0_NUM_THREADS", "OPENBLAS_NUM_THREADS", "OMP_NUM_THREADS", "MKL_NUM_THREADS"):
+    os.environ.setdefault(_v, "1")
 REPO = os.environ.get("VERIF_REPO", "/repo")
 VERIF = os.path.dirname(os.path.dirname(os.path.abspath(__file__)))
 # scratch space; a run against another tree (VERIF_REPO) gets its own, so that it cannot disturb a run against /repo
